@@ -45,6 +45,7 @@
     whose size is EXACTLY the written tokens (none for `[]`; C14's array-size position) and leaves
     the following token in the stream.
 -/
+import CxxModel.Theorems.LeadCv
 import CxxModel.Theorems.DeclGenItems
 import CxxModel.Theorems.WholeParse
 import CxxModel.Interp
@@ -463,5 +464,28 @@ example (env : Env) (F D : Nat) (hF : 5 ≤ F) : arrDecl.OK env F D := by
 end nonvacuity
 
 end
+
+/-! ### cv-qualifiers after a class / enum body: `key S { … } const volatile a , * b ;` -/
+
+/-- **the qualifiers written after the closing brace** (any number of `const` / `volatile`, any order) are read by the
+    declarator loop of `_finish_class_or_enum` and set on the type every declarator of the statement is built from -/
+theorem C02_class_cv_loop (env : Env) (cvs : List Tok) (n : PQName) (c v : Bool) (term : Tok) (k : Nat) (w : World) (bmid b' : Buf)
+    (hall : ∀ q ∈ cvs, q.type = "const" ∨ q.type = "volatile") (h1 : term.type ≠ "const") (h2 : term.type ≠ "volatile")
+    (hy : Yields env.cfg w.buf cvs bmid) (htok : tokenEofOk env.cfg bmid = .ok (some term, b')) (hk : cvs.length + 1 ≤ k) :
+    ∃ (w' : World) (t' : Tok),
+      interp env (P.loopN k (.type n c v) P.leadCvBody) w = (w', .ok (cvOn n c v cvs)) ∧ SameParse w w' ∧
+      tokenEofOk env.cfg w'.buf = .ok (some t', b') ∧ t'.type = term.type ∧ t'.value = term.value :=
+  leadCv_loop env cvs n c v term k w bmid b' hall h1 h2 hy htok hk
+
+/-- **they stay there for every later declarator**: the type handed to declarator j carries every qualifier read before any
+    declarator i ≤ j (the implementation shares ONE `Type` object between the declarators and qualifies it in place) -/
+theorem C02_class_cv_persists (n : PQName) (c v : Bool) (cvs1 cvs2 : List Tok) :
+    (match cvOn n c v cvs1 with
+     | .type n' c' v' => cvOn n' c' v' cvs2
+     | d => d) = cvOn n c v (cvs1 ++ cvs2) := cvOn_persists n c v cvs1 cvs2
+
+example (n : PQName) : cvOn n false false [{ type := "const", value := "const", loc := default }] = .type n true false := by
+  simp [cvOn]
+
 
 end Cxx
